@@ -351,6 +351,20 @@ func (fr *Frame) lookupDebug(name string, b *ssa.BasicBlock, inclusive bool) *SV
 			}
 			return v
 		}
+		// a merge of several assignments to the variable: the phi carries the variable's name
+		// (without this an older DebugRef in a dominator further up - a stale value - would be
+		// taken for the variable)
+		for _, in := range d.Instrs {
+			phi, ok := in.(*ssa.Phi)
+			if !ok {
+				break
+			}
+			if phi.Comment == name {
+				if v, ok := fr.vals[phi]; ok {
+					return v
+				}
+			}
+		}
 	}
 	return nil
 }
@@ -1211,15 +1225,22 @@ func (e *SpecEnv) quant(kind string, args []*Node) *SVal {
 	}
 	b := e.fr.evalBool(body, n)
 	q := "(forall ((" + bvq + " Int)) " + sImp(guard, b) + ")"
-	if kind == "forall" && strings.HasPrefix(b, "(forall ((") {
+	// forall i. G ==> (A ==> forall j. R): the condition A (which cannot mention j) joins the guard
+	fb, fguard := b, guard
+	if kind == "forall" && strings.HasPrefix(b, "(=> ") && os.Getenv("GOVC_NOPULL") == "" {
+		if ia := sexprArgs(b); len(ia) == 3 && ia[0] == "=>" && strings.HasPrefix(ia[2], "(forall ((") {
+			fguard, fb = sAnd(guard, ia[1]), ia[2]
+		}
+	}
+	if kind == "forall" && strings.HasPrefix(fb, "(forall ((") {
 		// forall i. G ==> forall j. R   is written   forall i j. G ==> R : one quantifier with
 		// several variables is instantiated in one step, nested ones level by level
-		if parts := sexprArgs(b); len(parts) == 3 && parts[0] == "forall" {
+		if parts := sexprArgs(fb); len(parts) == 3 && parts[0] == "forall" {
 			inner := parts[2]
 			if ia := sexprArgs(inner); len(ia) == 3 && ia[0] == "=>" {
-				inner = sImp(sAnd(guard, ia[1]), ia[2])
+				inner = sImp(sAnd(fguard, ia[1]), ia[2])
 			} else {
-				inner = sImp(guard, inner)
+				inner = sImp(fguard, inner)
 			}
 			q = "(forall ((" + bvq + " Int) " + strings.TrimPrefix(parts[1], "(") + " " + inner + ")"
 		}
